@@ -279,3 +279,56 @@ func zxC13Scan() {
 }
 
 func rsLog() golog.Logger { return golog.LoggerFor("zx") }
+
+// C03.W — a flush rewrites every row of the previous file no matter how it is performed: plain,
+// sorted (external merge sort, when a memory cap is configured), with or without the raw
+// pass-through of untouched rows (every 10th flush disables it): the four ways of flushing the
+// same file + memstore leave the same rows on disk (DESIGN §5 C03.W).
+//
+//zx:harness prop=C03 id=C03.W tier=quick mode=real env=fs
+func zxC03FlushModes() {
+	zxFSReset()
+	fields := core.Fields{core.PointsField, zxFieldA}
+	t, rs := zxTable(fields)
+	va, vb := vrtFloat64("va"), vrtFloat64("vb")
+	vrtAssume(vrtAnd(vrtFinite(va), vrtFinite(vb)))
+	zxInsert(rs, rs.memStore, "x", zxNow, map[string]float64{"a": va}, 0, 10)
+	zxInsert(rs, rs.memStore, "y", zxNow, map[string]float64{"a": 7}, 0, 20)
+	rs.doProcessFlush(rs.memStore, false, false)
+	// second generation: x is touched again, y is not (eligible for the raw pass-through), z is new
+	zxInsert(rs, rs.memStore, "x", zxNow, map[string]float64{"a": vb}, 0, 30)
+	zxInsert(rs, rs.memStore, "z", zxNow, map[string]float64{"a": 9}, 0, 40)
+	shouldSort := vrtShape("sorted", 2) == 1
+	disallowRaw := vrtShape("disallowRaw", 2) == 1
+	if shouldSort {
+		t.db.opts.MaxMemoryRatio = 0.5
+	}
+	out, _ := zxTempFile("", "flushmodes")
+	_, rowCount, err := rs.fileStore.flush(out, fields, nil, rs.memStore.offsetsBySource, rs.memStore, shouldSort, disallowRaw)
+	vrtAssert(err == nil, "the flush succeeds")
+	_ = rowCount
+	zxFS["/data/t/filestore_99999999999999999999_5.dat"] = zxFS[zxFileName(out)]
+	fs2 := &fileStore{t, rs, fields, "/data/t/filestore_99999999999999999999_5.dat"}
+	got := map[string]float64{}
+	n := map[string]int{}
+	_, err = fs2.iterate(fields, nil, false, false, func(key bytemap.ByteMap, cols []encoding.Sequence, raw []byte) (bool, error) {
+		k, _ := key.Get("k").(string)
+		v, _ := zxVal(cols[1], zxFieldA)
+		got[k] = v
+		n[k]++
+		return true, nil
+	})
+	vrtAssert(err == nil, "the rewritten file scans without error")
+	mode := "plain"
+	if shouldSort {
+		mode = "sorted"
+	}
+	if disallowRaw {
+		mode += ", raw pass-through disabled"
+	} else {
+		mode += ", raw pass-through allowed"
+	}
+	vrtAssert(n["x"] == 1 && n["y"] == 1 && n["z"] == 1, "every key of the old file and of the memstore is in the new file exactly once ("+mode+")")
+	vrtAssert(vrtFloatEq(got["x"], va+vb) && got["y"] == 7 && got["z"] == 9, "every key keeps its value ("+mode+")")
+	vrtReach("C03.W")
+}
